@@ -1104,3 +1104,9 @@ CASES += [
                 continue;''', new='''                result.push(SymbolicBDDToken::Countable(parsed_number));''', expect={'C05': 'tokenize'}, control=False),
  dict(id='timed-closure-applies-model-inside', kind='fire', file=M, patch='bn42-05.diff', old='        let (bdd, elapsed) = timed(|| input_parsed.eval());', new='        let (bdd, elapsed) = timed(|| input_parsed.env.model(input_parsed.eval()));', expect={'C10': 'model'}, control=False),
 ]
+# seed round 11 (C20-r11a): the predicate that selects a filter variant accepts more than `matches` does
+CASES += [
+ dict(id='r11-tte-selection-predicate-widened', kind='fire', file='src/truth_table.rs', old='            .find(|variant| variant.matches(s))',
+      new='            .find(|variant| variant.matches(s) || (s.len() == 1 && variant.to_string().to_lowercase().contains(s)))',
+      expect={'C20': 'selection predicate', 'C10': 'selection predicate'}, control=False),
+]
